@@ -194,3 +194,78 @@ func zzC19PskResumptionSurvivesHRR() {
 	verifReach("end")
 	verifAssertClass(err == nil, "resumption-survives-hello-retry-request", "utls-does-not-reprocess-psk-after-hrr")
 }
+
+//verif:harness C19 wire_never_offers_ems_session_without_extension unwind=4000 instrs=600000000 paths=40000 wall=900
+//verif:stub (*math/rand.Rand).Shuffle zzStubShuffle
+//verif:stub (*crypto/x509.Certificate).VerifyHostname zzStubVerifyHostname
+//verif:stub (time.Time).Sub zzStubTimeSub
+//verif:expect offered declined
+//verif:assume x509 host-name matching succeeds (stub); the cached session is valid in every other respect
+//verif:doc End to end through the real uTLS build pipeline (HelloCustom + ApplyPreset + BuildHandshakeState): a spec derived from a sampled parrot with a session_ticket extension, with its extended_master_secret extension kept or removed (choice), and a cache holding a valid TLS 1.2 session whose extended-master-secret flag is symbolic: whenever the ClientHello on the wire carries the cached ticket and the session used EMS, the wire hello has an extended_master_secret extension (code point 23).
+func zzC19WireNeverOffersEmsSessionWithoutExtension() {
+	p := zzChooseParrotSample()
+	spec, _ := zzRefSpec(p.id)
+	hasTicket, hasPSK := false, false
+	var exts []TLSExtension
+	drop := verifBool("drop-ems-extension")
+	for _, e := range spec.Extensions {
+		switch e.(type) {
+		case *SessionTicketExtension:
+			hasTicket = true
+		case PreSharedKeyExtension:
+			hasPSK = true
+		case *ExtendedMasterSecretExtension:
+			if drop {
+				continue
+			}
+		}
+		exts = append(exts, e)
+	}
+	if !hasTicket || hasPSK {
+		verifReach("offered")
+		verifReach("declined")
+		return
+	}
+	spec.Extensions = exts
+	var suite uint16
+	for _, s := range spec.CipherSuites {
+		if cs := cipherSuiteByID(s); cs != nil && !zzIsTLS13Suite(s) {
+			suite = s
+			break
+		}
+	}
+	zzCacheKeys, zzCachePuts, zzHostnameChecks = nil, nil, nil
+	zzHostnameOK = true
+	cfg := zzConfig("example.com")
+	cfg.ClientSessionCache = zzScriptedCache{}
+	now := zzFixedTime()
+	cert := &x509.Certificate{NotAfter: now.Add(time.Hour)}
+	ticket := []byte{0xde, 0xad, 0xbe, 0xef}
+	ems := verifBool("session-ems")
+	ss := &SessionState{version: VersionTLS12, cipherSuite: suite, extMasterSecret: ems, createdAt: uint64(now.Unix()), secret: []byte{1}, ticket: ticket,
+		peerCertificates: []*x509.Certificate{cert}, verifiedChains: [][]*x509.Certificate{{cert}}}
+	zzCachedSession = &ClientSessionState{session: ss}
+	uc := UClient(&zzRecConn{}, cfg, HelloCustom)
+	if err := uc.ApplyPreset(&spec); err != nil {
+		verifFail("apply-preset-fails", p.name)
+		return
+	}
+	if err := uc.BuildHandshakeState(); err != nil {
+		verifFail("build-fails", p.name)
+		return
+	}
+	h, why := zzRefParseClientHello(uc.HandshakeState.Hello.Raw)
+	verifAssertClass(why == "", "hello-parses-strictly", p.name+":"+why)
+	if why != "" {
+		return
+	}
+	tb, hasT := h.ext(35)
+	_, hasEMS := h.ext(23)
+	if hasT && len(tb) > 0 {
+		verifReach("offered")
+		verifAssertClass(zzBytesEq(tb, ticket), "ticket-offered-verbatim", p.name)
+		verifAssertClass(!ems || hasEMS, "ems-session-needs-ems-extension", "on-the-wire")
+	} else {
+		verifReach("declined")
+	}
+}
